@@ -73,6 +73,36 @@ def run(ck):
                   "documented as a shortcut for Event('_ctrl', 'X') is a classmethod returning "
                   "cls('_ctrl', 'X') and ControlBlock handles 'X'", 'docs', 2)
 
+    R12 = ck.rule('R08.12', "a circuit that has ended can no longer be modified: abstract run of "
+                  "Circuit.check_not_finalized - it raises EdzedInvalidState whenever an error (also a normal "
+                  "stop) is recorded or the circuit is finalized, and only then; addblock, connect and "
+                  "set_persistent_data pass through it", 'M0', 2)
+    with ck.section('R08.12'):
+        from sa.minieval import MiniEval as _ME12
+        cnf = prog.func('simulator:Circuit.check_not_finalized')
+        bad12 = []
+        for err12 in (None, 'ERROR'):
+            for fin12 in (False, True):
+                out12 = _ME12(R12, {'self._error': err12, 'self._finalized': fin12, 'self.error': err12}).run(cnf.node.body)
+                ck.abstract_cases += 1
+                want12 = err12 is not None or fin12
+                got12 = out12[0] == 'raise' and 'EdzedInvalidState' in str(out12[1])
+                if got12 != want12 or (not want12 and out12 != ('return', None)):
+                    bad12.append(f"recorded error {err12!r}, finalized {fin12}: ends with {out12}")
+        ck.ob(R12, f"{cnf.fid} :: abstract run", not bad12,
+              "raises EdzedInvalidState iff the simulation has ended or the circuit is finalized (4 cases)"
+              if not bad12 else '; '.join(bad12) + ": blocks can be added, inputs connected or the storage replaced "
+              "after the simulation has ended", cnf, cnf.node)
+        gated12 = []
+        for fid12 in ('simulator:Circuit.addblock', 'simulator:Circuit.set_persistent_data', 'block:CBlock.connect'):
+            f12 = prog.func(fid12)
+            g12 = ck.cfg(f12.fid, 'M0')
+            chk12 = nodes_calling(g12, 'check_not_finalized')
+            okk = bool(chk12) and all(g12.dominates(chk12[0], r_) for r_ in return_nodes(g12) + [g12.exit]
+                                      if r_.id in g12.reachable())
+            gated12.append(okk)
+            ck.ob(R12, f"{f12.fid} :: gated", okk, "check_not_finalized() dominates every normal exit" if okk else
+                  "this mutator can complete without consulting check_not_finalized()", f12, f12.node)
     with ck.section('R08.1'):
         g = ck.cfg(rf.fid, 'M1')
         # ------------------------------------------------------------------ R08.1
